@@ -108,7 +108,16 @@ pub fn run_replay(args: &Args, mut out: Out) {
                     let h = idx(step["h"].as_str().unwrap());
                     let kind = step["e"].as_str().unwrap();
                     // the model numbers accepted events; the payload carries the candidate number
-                    let data = if kind == "empty" { String::new() } else { format!("{kind}#{next_id}") };
+                    // the payload carries the candidate number; in every fourth behaviour it is padded so that the event's
+                    // encoding ("data: " + payload + LF, one chunk) has a length at a boundary of the hexadecimal size line
+                    let mut data = if kind == "empty" { String::new() } else { format!("{kind}#{next_id}") };
+                    if kind != "empty" && sid % 4 == 3 {
+                        let target = [15usize, 16, 17, 255, 256, 257, 4095, 4096, 4097, 65_527, 65_528][(next_id + sid as usize / 4) % 11];
+                        if target > data.len() + 8 {
+                            data.push(' ');
+                            data.push_str(&"p".repeat(target - 7 - data.len()));
+                        }
+                    }
                     let was = handles[h].as_ref().map_or(false, EventSender::is_connected);
                     if let Some(s) = handles[h].as_mut() {
                         s.send(Event::Message(data.clone()));
